@@ -29,6 +29,25 @@ Theorem C03_select_error_only_if_filter_raises : forall t p am ty m,
 Proof. exact select_none. Qed.
 Print Assumptions C03_select_error_only_if_filter_raises.
 
+(* exactly when: the generator REACHES, before its count hits the limit, a member on which the
+   filter raises (a raising member behind the break is never looked at) *)
+Theorem C03_select_error_iff : forall t p am ty m,
+  select_members t p am ty m = None <->
+  is_fast p am ty = false /\
+  exists pre a post, m = pre ++ a :: post /\ keep t p ty a = None /\
+    (forall b, In b pre -> keep t p ty b <> None) /\
+    reached (limit am (zlen m)) (zlen (filter (keepb t p ty) pre)) = false.
+Proof. exact select_none_iff. Qed.
+Print Assumptions C03_select_error_iff.
+
+(* two unlimited selects in a row = one select with the conjunction of the filters *)
+Theorem C03_select_twice : forall t p q m r1 r2,
+  select_members t (Some p) AInf None m = Some r1 ->
+  select_members t (Some q) AInf None r1 = Some r2 ->
+  r2 = filter (fun a => keepb t (Some p) None a && keepb t (Some q) None a) m.
+Proof. exact select_twice. Qed.
+Print Assumptions C03_select_twice.
+
 (* a float fraction is rounded DOWN and never exceeds the set *)
 Theorem C03_select_fraction_floor : forall len k j,
   0 <= j -> 0 <= len -> 0 <= k <= 2 ^ j ->
@@ -47,7 +66,10 @@ Example C03_select_example :
   select_members t (Some (PAttrLe 0 2)) AInf None [1; 2; 5] = None /\
   (* ... unless the break comes first *)
   select_members t (Some (PAttrLe 0 2)) (AInt 1) None [1; 2; 5] = Some [2] /\
-  limit (AFrac 3 2) 5 = Some 3.
+  limit (AFrac 3 2) 5 = Some 3 /\
+  (* two selects in a row *)
+  select_members t (Some (PAttrLe 0 2)) AInf None [1; 2; 3; 4] = Some [2; 3; 4] /\
+  select_members t (Some (PIdMod 2 0)) AInf None [2; 3; 4] = Some [2; 4].
 Proof. vm_compute. repeat split. Qed.
 
 (* ------------------------------------------------------------------ sort *)
@@ -73,6 +95,12 @@ Theorem C03_sort_unique : forall t k asc m r l',
 Proof. exact sort_unique. Qed.
 Print Assumptions C03_sort_unique.
 
+(* sorting an already sorted set again by the same key and direction changes nothing *)
+Theorem C03_sort_idempotent : forall t k asc m r,
+  sort_members t k asc m = Some r -> sort_members t k asc r = Some r.
+Proof. exact sort_idempotent. Qed.
+Print Assumptions C03_sort_idempotent.
+
 Theorem C03_sort_error_iff_key_raises : forall t k asc m,
   sort_members t k asc m = None <-> exists a, In a m /\ eval_key t k a = None.
 Proof. exact sort_none. Qed.
@@ -84,7 +112,8 @@ Example C03_sort_example :
             (5, {| a_cls := 0; a_attrs := [(1, 1)] |})] in
   sort_members t (KAttr 0) false [1; 2; 3; 4] = Some [1; 3; 2; 4] /\   (* descending, ties in order *)
   sort_members t (KAttr 0) true [1; 2; 3; 4] = Some [2; 4; 1; 3] /\    (* ascending, ties in order *)
-  sort_members t (KAttr 0) true [1; 5] = None.
+  sort_members t (KAttr 0) true [1; 5] = None /\
+  sort_members t (KAttr 0) false [1; 3; 2; 4] = Some [1; 3; 2; 4].      (* sorted again: unchanged *)
 Proof. vm_compute. repeat split. Qed.
 
 (* ------------------------------------------------------------------ shuffle *)
